@@ -14,7 +14,7 @@ WEIGHTS = {"small_scope": 30, "mixed": 34, "planted3sat": 8, "threshold3sat": 6,
 
 
 def run(ctx, budget):
-    S.run_prop(ctx, "C01", budget, WEIGHTS, n_quick=16000)
+    S.run_prop(ctx, "C01", budget, WEIGHTS, n_quick=12000)
 
 
 def replay(ctx, body):
